@@ -74,8 +74,8 @@ Proof. vm_compute. split; reflexivity. Qed.
     Whole-memory model: every rank holds complete arrays ([mems] = one list per rank, any length >= E).
     [mh_plain] = _transpose(source, dest) returns (source', dest'); [mh_intact] =
     _transpose_source_intact(source, dest, buf) returns (dest', buf') - the source array is not an output
-    because no writing phase receives it; [fr V dflt E m m']: same lengths, identical at every address >= E.
-    [mh_ok E cur nxt] = step_ok_b and, on every rank, max(destination block size, p * padded block size) <= E.
+    because no writing phase receives it; [fr V dflt E m m']: same lengths, identical on rank r at every address >= E r.
+    [mh_ok E cur nxt] = step_ok_b and, on every rank, max(destination block size, p * padded block size) <= E r.
     None of the well-formedness predicates relates extents and process counts: ranks with empty blocks
     (n < p) are covered. *)
 From PGV Require Import TransposeFrame FrameMem TransposeFrameExec.
@@ -108,14 +108,14 @@ Print Assumptions c01_frame_scratch_cells_intact.
 
 (** one step on lists: nothing at or beyond E is touched *)
 Theorem c01_run_step_frame :
-  forall (V : Type) (dflt : V) (Nl nprocs : list nat) (d' E : nat) (cur nxt : list nat) (from to : mems V),
+  forall (V : Type) (dflt : V) (Nl nprocs : list nat) (d' : nat) (E : nat -> nat) (cur nxt : list nat) (from to : mems V),
   mh_ok Nl nprocs d' E cur nxt = true -> mh_Wm V nprocs E from -> mh_Wm V nprocs E to ->
   fr V dflt E from (fst (mh_plain V dflt Nl nprocs d' cur nxt from to)) /\
   fr V dflt E to (snd (mh_plain V dflt Nl nprocs d' cur nxt from to)).
 Proof. exact mh_plain_frame. Qed.
 Print Assumptions c01_run_step_frame.
 Theorem c01_run_step_frame_intact :
-  forall (V : Type) (dflt : V) (Nl nprocs : list nat) (d' E : nat) (cur nxt : list nat) (from to scratch : mems V),
+  forall (V : Type) (dflt : V) (Nl nprocs : list nat) (d' : nat) (E : nat -> nat) (cur nxt : list nat) (from to scratch : mems V),
   mh_ok Nl nprocs d' E cur nxt = true -> mh_Wm V nprocs E from -> mh_Wm V nprocs E to -> mh_Wm V nprocs E scratch ->
   fr V dflt E to (fst (mh_intact V dflt Nl nprocs d' cur nxt from to scratch)) /\
   fr V dflt E scratch (snd (mh_intact V dflt Nl nprocs d' cur nxt from to scratch)).
@@ -123,7 +123,7 @@ Proof. exact mh_intact_frame. Qed.
 Print Assumptions c01_run_step_frame_intact.
 (** the block prefix of dest is exactly the output of the prefix-level model run_step (both variants) *)
 Theorem c01_run_step_prefix :
-  forall (V : Type) (dflt : V) (Nl nprocs : list nat) (d' E : nat) (cur nxt : list nat) (from to : mems V) r j,
+  forall (V : Type) (dflt : V) (Nl nprocs : list nat) (d' : nat) (E : nat -> nat) (cur nxt : list nat) (from to : mems V) r j,
   mh_ok Nl nprocs d' E cur nxt = true -> mh_Wm V nprocs E to -> r < nranks nprocs ->
   inb (shape_of Nl nprocs d' nxt r) j ->
   cell V dflt (snd (mh_plain V dflt Nl nprocs d' cur nxt from to)) r (ravel (shape_of Nl nprocs d' nxt r) j)
@@ -131,7 +131,7 @@ Theorem c01_run_step_prefix :
 Proof. exact mh_plain_prefix. Qed.
 Print Assumptions c01_run_step_prefix.
 Theorem c01_run_step_prefix_intact :
-  forall (V : Type) (dflt : V) (Nl nprocs : list nat) (d' E : nat) (cur nxt : list nat) (from to scratch : mems V) r j,
+  forall (V : Type) (dflt : V) (Nl nprocs : list nat) (d' : nat) (E : nat -> nat) (cur nxt : list nat) (from to scratch : mems V) r j,
   mh_ok Nl nprocs d' E cur nxt = true -> mh_Wm V nprocs E to -> r < nranks nprocs ->
   inb (shape_of Nl nprocs d' nxt r) j ->
   cell V dflt (fst (mh_intact V dflt Nl nprocs d' cur nxt from to scratch)) r (ravel (shape_of Nl nprocs d' nxt r) j)
@@ -143,7 +143,7 @@ Print Assumptions c01_run_step_prefix_intact.
     steps dest is a copy of the whole source array; _transposeRedirect_source_intact: dest and buf are untouched
     beyond E and the source array is no output at all.  Both deliver the global field in dest. *)
 Theorem c01_run_route_frame :
-  forall (V : Type) (dflt : V) (Nl nprocs : list nat) (d' E : nat) (cur : list nat) (steps : list (list nat)) (src dst : mems V),
+  forall (V : Type) (dflt : V) (Nl nprocs : list nat) (d' : nat) (E : nat -> nat) (cur : list nat) (steps : list (list nat)) (src dst : mems V),
   mh_route_ok Nl nprocs d' E cur steps = true -> mh_Wm V nprocs E src -> mh_Wm V nprocs E dst ->
   fr V dflt E src (fst (mh_redirect V dflt Nl nprocs d' cur steps src dst)) /\
   (if Nat.even (length steps)
@@ -152,14 +152,14 @@ Theorem c01_run_route_frame :
 Proof. exact mh_redirect_frame. Qed.
 Print Assumptions c01_run_route_frame.
 Theorem c01_run_route_frame_intact :
-  forall (V : Type) (dflt : V) (Nl nprocs : list nat) (d' E : nat) (cur : list nat) (steps : list (list nat)) (src dst buf : mems V),
+  forall (V : Type) (dflt : V) (Nl nprocs : list nat) (d' : nat) (E : nat -> nat) (cur : list nat) (steps : list (list nat)) (src dst buf : mems V),
   mh_route_ok Nl nprocs d' E cur steps = true -> mh_Wm V nprocs E src -> mh_Wm V nprocs E dst -> mh_Wm V nprocs E buf ->
   fr V dflt E dst (fst (mh_redirect_intact V dflt Nl nprocs d' cur steps src dst buf)) /\
   fr V dflt E buf (snd (mh_redirect_intact V dflt Nl nprocs d' cur steps src dst buf)).
 Proof. exact mh_redirect_intact_frame. Qed.
 Print Assumptions c01_run_route_frame_intact.
 Theorem c01_mem_route_correct :
-  forall (V : Type) (dflt : V) (Nl nprocs : list nat) (d' E : nat) (G : list nat -> V) (cur : list nat)
+  forall (V : Type) (dflt : V) (Nl nprocs : list nat) (d' : nat) (E : nat -> nat) (G : list nat -> V) (cur : list nat)
     (steps : list (list nat)) (src dst : mems V),
   mh_route_ok Nl nprocs d' E cur steps = true -> mh_Wm V nprocs E src -> mh_Wm V nprocs E dst ->
   HoldsL V dflt Nl nprocs d' G cur src ->
@@ -167,7 +167,7 @@ Theorem c01_mem_route_correct :
 Proof. exact mh_redirect_correct. Qed.
 Print Assumptions c01_mem_route_correct.
 Theorem c01_mem_route_correct_intact :
-  forall (V : Type) (dflt : V) (Nl nprocs : list nat) (d' E : nat) (G : list nat -> V) (cur : list nat)
+  forall (V : Type) (dflt : V) (Nl nprocs : list nat) (d' : nat) (E : nat -> nat) (G : list nat -> V) (cur : list nat)
     (steps : list (list nat)) (src dst buf : mems V),
   steps <> [] -> mh_route_ok Nl nprocs d' E cur steps = true ->
   mh_Wm V nprocs E src -> mh_Wm V nprocs E dst -> mh_Wm V nprocs E buf ->
@@ -180,7 +180,7 @@ Print Assumptions c01_mem_route_correct_intact.
     7 (source), 8 (dest), 9 (buf) beyond the block.  Without a buffer the source array becomes the receive
     buffer (the 8s are the senders' dest padding); with one it is buf; dest keeps packed cells beyond its block. *)
 Example c01_example_frame :
-  mh_ok [3; 2] [2] 1 8 [0; 1] [1; 0] = true /\
+  mh_ok [3; 2] [2] 1 (fun _ => 4) [0; 1] [1; 0] = true /\
   mh_transpose nat 99 [3; 2] [2] 1 [0; 1] [[1; 0]] false [[0;1;7;7;7;7;7;7]; [2;3;4;5;7;7;7;7]] [[8;8;8;8;8;8;8;8]; [8;8;8;8;8;8;8;8]]
       [[9;9;9;9;9;9;9;9]; [9;9;9;9;9;9;9;9]]
   = ([[0;8;2;4;7;7;7;7]; [1;8;3;5;7;7;7;7]], [[0;2;4;8;8;8;8;8]; [1;3;5;5;8;8;8;8]], [[9;9;9;9;9;9;9;9]; [9;9;9;9;9;9;9;9]]) /\
